@@ -18,7 +18,7 @@ func init() {
 				Witnesses: []string{"long-payload", "source-decorated", "constraint"}},
 			{Pkg: "wire", Entry: "VerifH17", What: "the same error returned by a callback — a statement function in a simple query, a statement function under Execute, the ParseFn — instead of being handed to ErrorCode: the client gets exactly one ErrorResponse with the same fields; the base error may be a standard-library sentinel (context.Canceled, context.DeadlineExceeded, io.EOF, io.ErrUnexpectedEOF, net.ErrClosed) under the handler's decorations",
 				Quick: map[string]int{"D": 1, "VIA": 1, "BASES": 1}, Thorough: map[string]int{"D": 2, "VIA": 1, "BASES": 1},
-				Witnesses: []string{"error-returned-by-a-callback", "sentinel-base", "constraint"}},
+				Witnesses: []string{"error-returned-after-a-rejected-row", "error-returned-by-a-callback", "sentinel-base", "constraint"}},
 			{Pkg: "wire", Entry: "VerifH17", What: "same with layers of the handler's own error type (it unwraps to its cause and its Is method matches every error of its type) between the decorators: the decorations below and above such layers still reach their fields",
 				Quick: map[string]int{"D": 3, "APPERR": 1}, Thorough: map[string]int{"D": 3, "APPERR": 1},
 				Witnesses: []string{"application-error-layer", "source-decorated"}},
